@@ -67,6 +67,29 @@ impl CLCiphersuite for Toy2 {
     const s2: u32 = 552;
 }
 
+// A third small suite whose exponent length le is a multiple of 8 (the shipped suites have le = 258): octet-length arithmetic written as
+// bits / 8 + 1 and as (bits + 7) / 8 agrees only when the bit length is NOT byte-aligned.
+#[derive(Clone, PartialEq, Eq, Debug, Serialize, Deserialize)]
+pub struct Toy3 {}
+impl Ciphersuite for Toy3 {
+    type HashAlg = sha2::Sha256;
+}
+impl CLCiphersuite for Toy3 {
+    const SECPARAM: u32 = 192;
+    const QSEC: u32 = 19;
+    const ln: u32 = 2 * Self::SECPARAM;
+    const lm: u32 = 256;
+    const lin: u32 = 256;
+    const le: u32 = Self::lm + 8;
+    const ls: u32 = Self::ln + Self::lm + Self::lin;
+    const RANGEPROOF_ALG: RangeProof = RangeProof::Boudot2000;
+    const t: u32 = 128;
+    const l: u32 = 40;
+    const s: u32 = 40;
+    const s1: u32 = 40;
+    const s2: u32 = 552;
+}
+
 // A very small suite (17-bit primes): whole flows are cheap enough to be re-evaluated INSIDE Coq with vm_compute on the logged
 // draws, so that model, extraction and implementation are compared three ways on complete protocol runs.
 #[derive(Clone, PartialEq, Eq, Debug, Serialize, Deserialize)]
@@ -234,6 +257,7 @@ pub fn dispatch(op: &str, t: &[&str]) -> Option<Out> {
     Some(match t[0] {
         "toy" => run::<Toy>(op, &t[1..]),
         "toy2" => run::<Toy2>(op, &t[1..]),
+        "toy3" => run::<Toy3>(op, &t[1..]),
         "micro" => run::<Micro>(op, &t[1..]),
         "cl1024" => run::<CL1024Sha256>(op, &t[1..]),
         "cl2048" => run::<CL2048Sha256>(op, &t[1..]),
